@@ -30,7 +30,9 @@ Record vrow := {
 (* one element: its valence states and its stoichiometric coefficient in every phase *)
 Record erow := {
   e_states : list vrow;
-  e_c : list Q
+  e_c : list Q;
+  e_k : Q       (* known term: contribution of the reported redox mole transfers to this row (water, alkalinity);
+                   0 for an element summed over its valence states, where the redox reactions cancel *)
 }.
 
 Record problem := {
@@ -70,7 +72,7 @@ Definition states_sum (sg f : list Q) (vs : list vrow) : Q :=
 
 (* residual of the mole balance of element r *)
 Definition balance_res (pb : problem) (md : model) (r : erow) : Q :=
-  states_sum (p_sgn pb) (m_fr md) (e_states r) + dot (m_tr md) (e_c r).
+  states_sum (p_sgn pb) (m_fr md) (e_states r) + dot (m_tr md) (e_c r) + e_k r.
 
 Fixpoint zip3 {A B C} (a : list A) (b : list B) (c : list C) : list (A * B * C) :=
   match a, b, c with
